@@ -61,7 +61,6 @@ class PartProcessor(PartHandler, Maintainable):
                  cycle_time = 0,
                  value = 0,
                  resources_for_processing = None):
-        super().__init__(name, upstream, cycle_time, value)
         self._is_shut_down = False
 
         self._resources_for_processing = resources_for_processing
@@ -76,6 +75,10 @@ class PartProcessor(PartHandler, Maintainable):
         self._last_restore = 0
         self._time_in_use = 0
         self._last_use_start = None
+        # Registers with the System which will initialize the object
+        # immediately if the simulation is already in progress; must
+        # not be followed by anything that resets initialized fields.
+        super().__init__(name, upstream, cycle_time, value)
 
     @property
     def uptime(self):
